@@ -245,7 +245,8 @@ func runWalkMulti(c *core.Ctx) {
 		// EVERY place where the walker looks at a node's branches must walk them: a second range that only inspects the
 		// branch heads (comparing their marks, say) misses what sits deeper in a branch
 		nRanges, nBad := 0, 0
-		regionOf(fn, um).each(func(in ssa.Instruction) {
+		wreg := regionOf(fn, um)
+		wreg.each(func(in ssa.Instruction) {
 			call, isCall := in.(*ssa.Call)
 			if !isCall || sx.Callee(call) != um {
 				return
@@ -261,6 +262,10 @@ func runWalkMulti(c *core.Ctx) {
 			}()
 			arg := call.Call.Args[0]
 			if w.loopVar {
+				// (the per-layer body may sit in a helper that receives the loop variable)
+				if _, isParam := arg.(*ssa.Parameter); isParam {
+					arg = wreg.resolve(arg)
+				}
 				ph, isPhi := arg.(*ssa.Phi)
 				stepped := false
 				if isPhi {
